@@ -12,8 +12,8 @@
    comments, braces and nested pass-through macros (C07_expander_total_on_class:
    the fuel is bounded by a weight of the token list (a macro weighs 5 plus
    the length of its body, any other token 1), the result is Ok); end to end
-   for documents of the class in single-language mode
-   (C07_tex2txt_total_on_class): with the packages loaded and the fuel above
+   for documents of the class in single- and multi-language mode
+   (C07_tex2txt_total_on_class, C07_tex2txt_total_on_class_multi): with the packages loaded and the fuel above
    the weight of the scan, tex2txt() returns a result, whatever the
    replacement list and the other options.  Not proved: the same two claims
    for the expander on arbitrary input
@@ -112,3 +112,23 @@ Proof.
                                (eq_refl true) (fun c => eq_refl) (conj eq_refl eq_refl)).
 Qed.
 Print Assumptions C07_tex2txt_total_on_class.
+
+(* (8) the same in multi-language mode, provided every language has a
+   placeholder collection when the document starts (C07_collections_present
+   shows it for the parser as /repo creates it) *)
+Theorem C07_tex2txt_total_on_class_multi :
+  forall is_word files lang simple mods latex repl unkn thresh fuel st,
+  init_parser py_tables (fun f => assoc f files) fuel (init_state py_tables lang true simple true)
+              (t_builtin py_tables) mods = Ok st ->
+  rot_ok (check_parser_lang py_tables) (rot_change st) ->
+  doc_in_class py_tables (upd_unknowns (upd_extracted st []) []) latex = true ->
+  (mu (macros st) (fst (Scanner.scan (t_scan py_tables) latex)) < fuel)%nat ->
+  exists out,
+    run_tex2txt py_tables is_word files lang true simple mods [] latex [] repl unkn thresh fuel
+    = Ok out.
+Proof.
+  exact (fun is_word files lang simple mods latex repl unkn thresh fuel st =>
+           tex2txt_class_total_ml py_tables is_word files lang simple mods latex repl unkn thresh
+                                  fuel st (eq_refl true) (fun c => eq_refl) (conj eq_refl eq_refl)).
+Qed.
+Print Assumptions C07_tex2txt_total_on_class_multi.
